@@ -291,8 +291,12 @@ def check_lp_loops(ck, P, rid):
         l = loops[0]
         init, cond, inc = l.children[0], X.strip(l.children[2]), X.strip(l.children[3])
         iv = [x for x in init.walk() if x.k == "VarDecl"]
-        ok = bool(iv) and iv[0].children and X.show(iv[0].children[0]) == "lid_thread_first"
-        ok = ok and cond.k == "BinaryOperator" and cond.op == "<" and X.show(cond.children[0]) == iv[0].name and X.show(cond.children[1]) == "lid_thread_end"
+        def _res(n):
+            n = X.strip(n)
+            r = Q.resolve_local(f, n) if n is not None and n.k == "DeclRefExpr" and n.d.get("sc") == "local" else n
+            return X.show(r) if r is not None else "?"
+        ok = bool(iv) and iv[0].children and _res(iv[0].children[0]) == "lid_thread_first"
+        ok = ok and cond.k == "BinaryOperator" and cond.op == "<" and X.show(cond.children[0]) == iv[0].name and _res(cond.children[1]) == "lid_thread_end"
         ok = ok and inc.k == "UnaryOperator" and inc.op == "++" and X.show(inc.children[0]) == iv[0].name
         if not ok:
             ck.violated(rid, inst, l.where, "%s does not iterate exactly [lid_thread_first, lid_thread_end): %s; %s; %s" % (fname, X.show(iv[0]) if iv else "?", X.show(cond), X.show(inc)), cfg)
